@@ -304,6 +304,8 @@ def render_fn(p, fid, ctx, prelude):
                 extra = ", " + ctx.var_expr(s["var"], "bare")
             lines.append("        return (\"inner\", %d%s)" % (s["const"], extra))
             lines.append("    x%d = inner%d()" % (i, i))
+        elif k == "nested_eval":
+            lines.append("    x%d = dds.eval(%s)" % (i, ctx.fn_expr(s["fn"], need_bare=True)))
         elif k == "method":
             c = p["classes"][s["cls"]]
             lines.append("    x%d = %s(%s).%s()" % (i, ctx.cls_expr(s["cls"]), s["arg"], c["method"]))
